@@ -24,6 +24,46 @@ claim("C05", "exploration", MON + "combined-time (virtual + measured real) brack
       "Never-early and enforced-by bounds are computed from the virtual instant of transmission and real-time brackets measured around it; a reply consumed before the earliest legitimate expiry must be delivered; real sleeps put requests in the queue for real time so that 'queued time counts' is observable.",
       "timer granularity 1 ms (+2 ms slack on the late side); deadlines beyond the documented maximum span (1 year) are only checked for not crashing (C16)", "DESIGN.md 1, 4/C05")
 
+claim("C04", "exploration", MON + "handler-lifecycle event log (start/poll/finish/drop per invocation) checked against the instant the channel read each Cancel; cascade obligation at clock-stopped idle points on real client/server chains",
+      "S-server: no handler poll, no response and no in-flight count after the channel read the cancellation, for cancels at every stage (before first poll, running, finished-unwritten, written, unknown id), with and without limiter, sink ready or not. S-e2e: chains of depth 1-3 over every shipped transport; abandoning the head call must leave no unfinished handler alive at the next idle point without advancing the clock.",
+      "requests whose deadline is possibly reached are exempt from the cascade obligation (the dispatcher owes no cancel for them)", "DESIGN.md 4/C04")
+claim("C06", "exploration", MON + "combined-time bracket oracle anchored at the instant the channel read the request; unexplained-abort rule; idle-point lateness rule",
+      "Every handler drop without finish that is not explained by a read Cancel, an application drop or a channel drop must be an expiry and must not be early; at idle points no handler may outlive its deadline; nothing is transmitted for an expired request; other requests still get their responses.",
+      "known finding F6 (limiter at limit and sink not ready) is reported as KNOWN-FINDING by exact signature", "DESIGN.md 4/C06, 5.1")
+claim("C07", "exploration", MON + "per-hop deadline shift bounded by measured send/receive brackets on monitored real transports",
+      "For every call and hop the handler's deadline minus the sender's must lie within [recv_before - send_after, recv_after - send_before] measured around the serializing start_send and the deserializing poll_next (exact whatever the load); in-memory links must not change it; expired deadlines must arrive inside the decode bracket; accumulated over chains of 1-3 hops; deadlines from expired to 60 years.",
+      "the 10-second default for an omitted deadline is checked in C15/C16's codec workload", "DESIGN.md 4/C07")
+claim("C08", "exploration", MON + "invocation-unique handler results; responses attributed to invocations, offline lifecycle checker",
+      "Each handler invocation returns a value unique to the invocation, so every written response identifies the invocation that produced it; duplicates of ids certainly in flight must not be offered, everything else read must be offered exactly once or throttled, at most one response per request and only after its handler finished and before cancel/expiry/abandon.",
+      "scenarios in which an id is reused after cancellation/expiry/abandonment (outside the property's quantifier) are not judged", "DESIGN.md 4/C08, 5.3")
+claim("C09", "fault_enumeration", MON + "fault injection at the k-th call of every transport method, enumerated from a fault-free counting run, with outcome oracles",
+      "For each base scenario every (operation, k) is enumerated and the run repeated with that single fault (and end-of-stream at every read); the dispatch output / stream item must name the activity, every outstanding call must resolve with a connection error, later calls must fail fast, a failed request write fails only its call, handlers must not outlive the dropped channel, nothing may panic.",
+      "one fault per run; multi-fault sequences are not enumerated", "DESIGN.md 4/C09")
+claim("C10", "exploration", MON + "wire-order checker for writes/flush/close at the client sink; end-of-stream obligations on the server stream",
+      "Client: queued cancels precede close, Ok(()) only after close, prompt stop and failed calls on peer close. Server: the stream may end only after inbound EOF, with every yielded request ended and all responses flushed, and must end once that holds.",
+      "handle drop / EOF positions are sampled by the scheduler, not enumerated", "DESIGN.md 4/C10")
+claim("C11", "exploration", MON + "hooked length accessors sampled after every poll + wire-derived certain/possible in-flight counts, long runs",
+      "entries == timers after every poll on both ends; client never certainly above max_in_flight_requests on the wire; server in_flight_requests() never above possible, equal to exact at idle points without uncertainty; everything back to zero with the clock stopped once all calls/requests ended by any route; runs of 2500 requests reuse slots.",
+      "known finding F6 affects the idle-equality clause and is matched by signature", "DESIGN.md 3, 4/C11")
+claim("C12", "exploration", MON + "certain/possible in-flight bounds evaluated at the instant each request is read",
+      "A request handed over while certainly >= L are in flight, or refused while possibly < L are, is a violation; refused requests must get exactly one throttle response and never run; includes cancel/expiry/response followed by a request inside one channel poll.",
+      "", "DESIGN.md 4/C12")
+claim("C13", "exploration", MON + "exact alive-set oracle over bounded-exhaustive and random arrival/close/poll sequences",
+      "The harness owns every yielded channel, so the number alive per key is exact at every admit/shed decision; all sequences up to length 7 (quick) / 9 (thorough) over 2 keys and n in {1,2} are enumerated, plus random longer ones.",
+      "", "DESIGN.md 4/C13")
+claim("C14", "exploration", MON + "online sink-contract monitor inside the instrumented transport (readiness credit, write-after-close/failure, idle-with-unflushed, spin detector)",
+      "Every Sink/Stream call tarpc makes is checked online on both coupled and independent readiness models, capacities 1..8, with faults for the after-failure clause; a transport that is refused a write without room makes the consequences visible too.",
+      "", "DESIGN.md 2.2, 4/C14")
+claim("C18", "exploration", MON + "unique trace ids per call compared on the wire, in handlers and across hops",
+      "Every call carries a unique trace id; wire Request, handler context, nested call and Cancel are compared per call and hop on S-client and S-e2e; span ids must be fresh per hop.",
+      "only the no-subscriber mode is exercised so far", "DESIGN.md 4/C18")
+claim("C19", "exploration", MON + "reference interpreter vs. recorded hook/handler event sequence over bounded-exhaustive hook trees",
+      "All hook trees up to nesting depth 4 (quick) / 5 (thorough) plus random deeper ones are executed through the real combinators and compared event by event with an interpreter written from the property's sentences.",
+      "", "DESIGN.md 4/C19")
+claim("C20", "exploration", MON + "recording backends under sequential prefixes, real-thread concurrency, adversarial hashers and every retry policy vector up to length 6",
+      "Round-robin balance after every prefix and after concurrent runs; consistent hash is a function into valid indices for 6 hashers; retry attempt numbering, request identity (Arc pointer), stop point and returned result.",
+      "", "DESIGN.md 4/C20")
+
 ALL = ["C%02d" % i for i in range(1, 21)]
 
 def main():
